@@ -98,7 +98,7 @@ class ProgGen:
         if k == "setq": return "(setq %s %s)" % (self.var(), self.expr(d1))
         if k == "keep":
             # keep the current value of a variable in another one / in a list (shows whether loop variables are values)
-            v, w = self.var(), self.var()
+            v, w = r.sample(self.VARS, 2)          # two different variables: (setq v (list v v)) in nested loops grows exponentially
             return r.choice(["(setq %s (cons %s (if (consp %s) %s nil)))" % (v, w, v, v), "(setq %s %s)" % (v, w),
                              "(setq %s (list %s %s))" % (v, w, v)])
         if k == "set": return "(set '%s %s)" % (self.var(), self.expr(d1))
